@@ -144,6 +144,22 @@ fn entry_view0(e: &VfsEntry) -> Value {
     })
 }
 
+/// builder programs with the "L" flag: the builder is created, the cwd is moved to the root, `exec()` runs, the cwd is put back -
+/// the path was given (and is documented to be resolved) when the builder was created
+fn late_exec<V: VirtualFileSystem, F: FnOnce() -> RvResult<()>>(v: &V, late: bool, exec: F) -> RvResult<()> {
+    if !late {
+        return exec();
+    }
+    let old = v.cwd()?;
+    if !v.is_dir(&old) {
+        return exec(); // a cwd that was removed or replaced cannot be restored afterwards: run in place
+    }
+    v.set_cwd("/")?;
+    let r = exec();
+    let _ = v.set_cwd(old);
+    r
+}
+
 /// Execute one call; every panic becomes {"o":"panic"}
 pub fn apply<V: VirtualFileSystem>(v: &V, c: &Value) -> Value {
     let op = c["op"].as_str().unwrap_or("");
@@ -256,7 +272,7 @@ pub fn apply<V: VirtualFileSystem>(v: &V, c: &Value) -> Value {
                     _ => ch.secure(),
                 };
             }
-            ch.exec()
+            late_exec(v, flags.contains('L'), || ch.exec())
         })),
         "chown_seq" => res_unit(v.chown_b(&a).and_then(|mut ch| {
             for st in c["ls"].as_array().unwrap() {
@@ -270,7 +286,7 @@ pub fn apply<V: VirtualFileSystem>(v: &V, c: &Value) -> Value {
                     _ => ch.recurse(false),
                 };
             }
-            ch.exec()
+            late_exec(v, flags.contains('L'), || ch.exec())
         })),
         "copy_seq" => res_unit(v.copy_b(&a, &b).and_then(|mut cp| {
             for st in c["ls"].as_array().unwrap() {
